@@ -2169,6 +2169,14 @@ fn compress_normal(d: &mut CompressorOxide, callback: &mut CallbackOxide) -> boo
 
 const COMP_FAST_LOOKAHEAD_SIZE: usize = 4096;
 
+/// Whether the current block has grown past 31 KiB without compressing: `flush_block` can then
+/// still fall back to a stored block, which is only possible while the block's data is inside
+/// the window. (Same test as in `compress_normal`.)
+#[inline]
+fn lz_buf_is_fat(lz: &LZOxide) -> bool {
+    lz.total_bytes > 31 * 1024 && ((lz.code_position * 115) >> 7) >= lz.total_bytes as usize
+}
+
 fn compress_fast(d: &mut CompressorOxide, callback: &mut CallbackOxide) -> bool {
     let mut src_pos = d.params.src_pos;
     let mut lookahead_size = d.dict.lookahead_size;
@@ -2302,7 +2310,7 @@ fn compress_fast(d: &mut CompressorOxide, callback: &mut CallbackOxide) -> bool 
                 cur_pos = (cur_pos + cur_match_len as usize) & LZ_DICT_SIZE_MASK;
                 lookahead_size -= cur_match_len as usize;
 
-                if d.lz.code_position > LZ_CODE_BUF_SIZE - 8 {
+                if d.lz.code_position > LZ_CODE_BUF_SIZE - 8 || lz_buf_is_fat(&d.lz) {
                     // These values are used in flush_block, so we need to write them back here.
                     d.dict.lookahead_size = lookahead_size;
                     d.dict.lookahead_pos = lookahead_pos;
@@ -2340,7 +2348,7 @@ fn compress_fast(d: &mut CompressorOxide, callback: &mut CallbackOxide) -> bool 
             cur_pos = (cur_pos + 1) & LZ_DICT_SIZE_MASK;
             lookahead_size -= 1;
 
-            if d.lz.code_position > LZ_CODE_BUF_SIZE - 8 {
+            if d.lz.code_position > LZ_CODE_BUF_SIZE - 8 || lz_buf_is_fat(&d.lz) {
                 // These values are used in flush_block, so we need to write them back here.
                 d.dict.lookahead_size = lookahead_size;
                 d.dict.lookahead_pos = lookahead_pos;
